@@ -66,7 +66,7 @@ def reference(stream, limit):
                 m = LIT_RE.search(cur)
                 if not m:
                     break
-                ln = int(m.group(1))
+                ln = int(m.group(1)) if len(m.group(1)) <= 18 else 10 ** 18  # (a count of thousands of digits is just 'too big')
                 sync = not m.group(2)
                 if refused:
                     if sync:
@@ -272,6 +272,11 @@ def gen_stream(rnd, limit, big=False):
             else:
                 lit = (b"a {3}\r\nabc {2+}\r\n" * (sz // 16 + 1))[:sz]
             hdr = b" {%d%s}" % (sz, b"" if sync else b"+")
+            if sync and rnd.random() < 0.04:
+                # an absurd size: thousands of digits (a synchronising literal the client will never send)
+                sz = 10 ** 18
+                hdr = b" {" + rnd.choice([b"1", b"9", b"12345"]) * rnd.choice([900, 4301, 5000]) + b"}"
+                classes.add("absurd-literal-size")
             out += hdr
             size += len(hdr)
             classes.add("sync-literal" if sync else "nonsync-literal")
